@@ -5,7 +5,10 @@ SPEC = {
     "rule": "all ordered pairs of a finite alphabet per value type (scalar, periodic scalar through real colvar objects "
             "with 6 period/wrapAround settings, 3-vector, 26(+4) unit vectors, 24x2+6 quaternions, generic vectors of "
             "length 1-3) x lambda in {0,1/4,1/2,3/4,1}; a case is distinct by (type,a,b); all are non-trivial "
-            "(each is compared against an independent reference metric)",
+            "(each is compared against an independent reference metric); every periodic component type (dihedral, polarPhi, "
+            "spinAngle, eulerPhi, eulerPsi, periodic distanceZ) x 4 wrap centres: wrap() of a value menu, and the value the "
+            "variable REPORTS on a sweep of 3x24 (thorough 3x72) geometries through the whole period must lie in the interval "
+            "centred on wrapAround and be equivalent to the value reported with centre 0",
     "assumptions": ["finite alphabet of reals; nothing is claimed for values outside it",
                     "antipodal unit vectors and quaternions at the cut locus are exempt from the derivative clause only"],
 }
